@@ -90,6 +90,19 @@ def compOp (op : String) (j : Json) : Except String Json := do
     if !missing.isEmpty then return obj [("need_stage_loads", Json.arr missing.toArray)]
     return obj [("points", Json.arr ((serialPoints stages).map fun p => Json.arr #[ratJ p.1, ratJ p.2]).toArray),
                 ("legacy_abscissa", ratsJ ((List.range 11).map fun (k : Nat) => serialAbscissaLegacy stages ((k : Rat) / 10)))]
+  | "comp.serial_modelled" =>
+    -- stages: [{rated, points}]; the train's efficiency at the given system loads, by the model alone
+    let stagesJ ← jArr (← fld j "stages")
+    let stages : List Stage ← stagesJ.mapM fun s => do
+      let pts ← (← jArr (← fld s "points")).mapM fun p => do
+        match ← jRats p with
+        | [a, b] => pure (a, b)
+        | _ => throw "expected [load, efficiency]"
+      match Feems.Pchip.curve pts 0 with
+      | .error e => throw e
+      | .ok _ => pure (⟨← jRat (← fld s "rated"), etaOfPoints pts⟩ : Stage)
+    let xs ← jRats (← fld j "at")
+    return ratsJ (xs.map (serialEta stages))
   | "comp.serial_loads" =>
     let stagesJ ← jArr (← fld j "stages")
     let rs ← stagesJ.mapM fun s => do jRat (← fld s "rated")
